@@ -774,32 +774,6 @@ theorem clampScope_bits (p : Policy) (scope source : Prefix) :
     simp only [if_true, if_false, Bool.false_eq_true, Nat.min_def] <;>
     (repeat' split) <;> omega
 
-theorem maskBytes_maskBytes_le (a b : Nat) (h : a ≤ b) (x : Bytes) :
-    maskBytes a (maskBytes b x) = maskBytes a x := by
-  induction x generalizing a b with
-  | nil => rfl
-  | cons y t ih =>
-    simp only [maskBytes, List.cons.injEq]
-    refine ⟨?_, ih (a - 8) (b - 8) (by omega)⟩
-    unfold maskByte
-    by_cases hb : b ≥ 8
-    · simp [hb]
-    · have ha : ¬ a ≥ 8 := by omega
-      simp only [hb, ha, if_false]
-      have hy : y.toNat < 256 := UInt8.toNat_lt y
-      have hpb : 0 < 2 ^ (8 - b) := Nat.two_pow_pos _
-      have hle : y.toNat / 2 ^ (8 - b) * 2 ^ (8 - b) ≤ y.toNat := Nat.div_mul_le_self _ _
-      have hlt : y.toNat / 2 ^ (8 - b) * 2 ^ (8 - b) < 256 := by omega
-      have e1 : (UInt8.ofNat (y.toNat / 2 ^ (8 - b) * 2 ^ (8 - b))).toNat = y.toNat / 2 ^ (8 - b) * 2 ^ (8 - b) := by
-        simp [UInt8.toNat_ofNat', Nat.mod_eq_of_lt hlt]
-      rw [e1]
-      -- clearing the low (8-b) bits and then the low (8-a) ⊇ them is clearing the low (8-a) bits
-      have hsplit : 2 ^ (8 - a) = 2 ^ (8 - b) * 2 ^ (b - a) := by
-        rw [← Nat.pow_add]; congr 1; omega
-      have : y.toNat / 2 ^ (8 - b) * 2 ^ (8 - b) / 2 ^ (8 - a) = y.toNat / 2 ^ (8 - a) := by
-        rw [hsplit, ← Nat.div_div_eq_div_mul, Nat.mul_div_cancel _ hpb, Nat.div_div_eq_div_mul]
-      rw [this]
-
 /-- **The audience an answer is admitted for, exactly** (`WriteMsg` with a SCOPE in the
 response): the network of the asking client's forwarded source of length
 `min(SCOPE, SOURCE, floor of the source's family)` — never wider than the floor allows,
@@ -810,7 +784,7 @@ theorem admitted_audience_exact (p : Policy) (src : Prefix) (sb : Nat) (s : Pref
     s.bits = min (min sb src.bits) (if src.v6 then p.minScopeV6 else p.minScopeV4) ∧
     s.addr = maskBytes s.bits src.addr ∧ s.containsPrefix src := by
   unfold admitScope responseScope at h
-  by_cases h0 : sb = 0
+  by_cases h0 : sb = 0 ∨ sb > 8 * src.addr.length
   · simp [h0] at h
   · simp only [h0, if_false, Option.some.injEq] at h
     subst h
@@ -831,16 +805,16 @@ theorem admitted_shared_otherwise (p : Policy) (client : Scope) (sbits : Option 
   rcases h with h | h | h <;> subst h
   · rfl
   · cases client <;> rfl
-  · cases client <;> rfl
+  · cases client <;> simp
 
 /-- **`WriteMsg` files the answer under its own key with that identity**: question and CD
 of the response, the clamped scope both in the key preimage and on the entry. -/
 theorem admit_records_identity (H : Bytes → UInt64) (p : Policy) (s : AStore) (id : Nat) (name : Bytes)
     (qtype qclass : UInt16) (cd : Bool) (client : Scope) (sbits : Option Nat) :
-    ∃ e, (admit H p s id name qtype qclass cd client sbits).get
+    ∃ e, (admitAnswer H p s id name qtype qclass cd client sbits).get
           ((CacheKey.mk name qtype qclass cd (admitScope p client sbits)).hash H) = some e ∧
       Identical e name qtype qclass cd (admitScope p client sbits) := by
-  unfold admit
+  unfold admitAnswer
   exact (admission_records_identity s _ id name qtype qclass cd _ none).1
 
 /-- **A refresh asks, and files, the question of the partition it refreshes.**  If the hit
